@@ -13,7 +13,7 @@
 (***************************************************************************)
 EXTENDS Integers, Sequences, FiniteSets, TLC, Json
 
-CONSTANTS Cls, MsgKinds, Outs, DelayCls, Vals, Depth, Variant, MaxObjs, Parents, Fmts
+CONSTANTS Cls, MsgKinds, Outs, DelayCls, Vals, Depth, Variant, MaxObjs, Parents, Fmts, SecondReport
 \* Cls subset of {"P","C","N","T"}: P = instructor subclass of Feedback, C = subclass of P, T = a tool feedback
 Attrs == {"template", "title"}
 \* N = another subclass of P whose own class body sets title = None, masking P's title
@@ -26,10 +26,15 @@ VARIABLES objs,      \* sequence of feedback objects [cls, mk, out, status, trut
           table,     \* which backup table a class uses: "none" (class has _override_backups None), else owner class
           backup,    \* backup tables by owner class: [Cls -> [Attrs -> value or "none"]]
           overridden,\* report.overridden_feedbacks
+          overridden2, \* the same registry of a SECOND Report object (a preview report next to the grading report);
+                      \* the backup tables live on the classes, so both reports share them
+          lastCleared, \* ghost: the classes that had been overridden THROUGH the report cleared last
+          via,         \* ghost: [report -> classes overridden through it since it was last cleared] (what the
+                      \* contract speaks about; `overridden` / `overridden2` are the implementation's registries)
           fmt,       \* report.format
           raised,    \* did the last call raise to its caller?
           hist
-vars == <<objs, active, ignored, attr, table, backup, overridden, fmt, raised, hist>>
+vars == <<objs, active, ignored, attr, table, backup, overridden, overridden2, lastCleared, via, fmt, raised, hist>>
 
 Pristine == [c \in Cls |-> [a \in Attrs |-> IF c = "I" THEN "inherit" ELSE "orig:" \o c]]   \* own originals (I: none)
 \* getattr(cls, attribute): the class' own value, else its parent's
@@ -41,7 +46,7 @@ Proj == [active |-> active, ignored |-> ignored,
          attr |-> [c \in Cls |-> [a \in Attrs |-> Eff(attr, c, a)]], raised |-> raised, fmt |-> fmt]
 
 Init == /\ objs = <<>> /\ active = <<>> /\ ignored = <<>> /\ attr = Pristine
-        /\ table = [c \in Cls |-> "none"] /\ backup = NoBackup /\ overridden = {}
+        /\ table = [c \in Cls |-> "none"] /\ backup = NoBackup /\ overridden = {} /\ overridden2 = {} /\ lastCleared = {} /\ via = [r \in {1, 2} |-> {}]
         /\ fmt = "F1" /\ raised = FALSE /\ hist = <<>>
 
 (* ---------- message derivation (Feedback._get_message) ---------- *)
@@ -102,14 +107,14 @@ Create(cls, mk, out, delay, par) ==
           THEN /\ objs' = Append(objs, o0) /\ raised' = FALSE /\ UNCHANGED <<active, ignored>>
           ELSE LET h == IF Variant = "impl" THEN Handle(o0) ELSE MutHandle(o0) IN
                /\ objs' = Append(objs, h.obj) /\ Attach(h.obj, i) /\ raised' = h.raises
-    /\ UNCHANGED <<attr, table, backup, overridden, fmt>>
+    /\ UNCHANGED <<attr, table, backup, overridden, overridden2, lastCleared, via, fmt>>
     /\ Step([op |-> "create", cls |-> cls, mk |-> mk, out |-> out, delay |-> delay, v |-> "-", attr |-> "-", i |-> 0, par |-> par])
 
 HandleDelayed(i) ==
     /\ CanAct /\ i \in 1..Len(objs) /\ objs[i].status = "delayed"
     /\ LET h == IF Variant = "impl" THEN Handle(objs[i]) ELSE MutHandle(objs[i]) IN
        /\ objs' = [objs EXCEPT ![i] = h.obj] /\ Attach(h.obj, i) /\ raised' = h.raises
-    /\ UNCHANGED <<attr, table, backup, overridden, fmt>>
+    /\ UNCHANGED <<attr, table, backup, overridden, overridden2, lastCleared, via, fmt>>
     /\ Step([op |-> "handle", cls |-> "-", mk |-> "-", out |-> "-", delay |-> FALSE, v |-> "-", attr |-> "-", i |-> i, par |-> "-"])
 
 (* ---------- Feedback.override / _restore_overrides, written like the code ---------- *)
@@ -117,10 +122,13 @@ HandleDelayed(i) ==
 \* MRO, so a class whose ancestor already owns a table shares that table.
 TableOf(c) == IF table[c] # "none" THEN table[c]
               ELSE IF Parent(c) \in Cls /\ table[Parent(c)] # "none" THEN table[Parent(c)] ELSE c
-Override(c, a, v) ==
+OverrideVia(rep, c, a, v) ==
     /\ CanAct /\ v # Eff(attr, c, a) /\ v # "inherit"
     /\ LET t == IF Variant = "shared_table" THEN TableOf(c) ELSE c   \* "shared_table" = code before the fix
            firstTime == backup[t][a] = "none"
+           \* the report is told about the class on every override; Variant register_first_backup_only tells it only
+           \* when this call took a first-time backup ("something new to undo")
+           registers == Variant # "register_first_backup_only" \/ firstTime
        IN /\ table' = [table EXCEPT ![c] = t]
           /\ backup' = IF firstTime \/ Variant = "backup_always"
                        \* what is saved: the class' OWN state (possibly "the class does not define it"); Variant
@@ -129,9 +137,13 @@ Override(c, a, v) ==
                        THEN [backup EXCEPT ![t][a] = IF Variant = "pin_inherited" THEN Eff(attr, c, a) ELSE attr[c][a]]
                        ELSE backup
           /\ attr' = [attr EXCEPT ![c][a] = v]
-    /\ overridden' = overridden \cup {c} /\ raised' = FALSE
-    /\ UNCHANGED <<objs, active, ignored, fmt>>
-    /\ Step([op |-> "override", cls |-> c, mk |-> "-", out |-> "-", delay |-> FALSE, v |-> v, attr |-> a, i |-> 0, par |-> "-"])
+          /\ IF rep = 1 THEN overridden' = (IF registers THEN overridden \cup {c} ELSE overridden) /\ UNCHANGED overridden2
+             ELSE overridden2' = (IF registers THEN overridden2 \cup {c} ELSE overridden2) /\ UNCHANGED overridden
+    /\ raised' = FALSE /\ via' = [via EXCEPT ![rep] = @ \cup {c}]
+    /\ UNCHANGED <<objs, active, ignored, fmt, lastCleared>>
+    /\ Step([op |-> IF rep = 1 THEN "override" ELSE "override2", cls |-> c, mk |-> "-", out |-> "-", delay |-> FALSE, v |-> v, attr |-> a, i |-> 0, par |-> "-"])
+Override(c, a, v) == OverrideVia(1, c, a, v)
+Override2(c, a, v) == SecondReport /\ OverrideVia(2, c, a, v)
 
 \* clear_overridden_feedback: for each overridden class (set iteration order is not specified; the model
 \* restores P before C, T independent), setattr from its table, then clear that table.
@@ -153,28 +165,36 @@ OrderC == LET s == <<"C", "N", "I", "P", "T">> IN SelectSeq(s, LAMBDA c : c \in 
 
 ClearEffects(order) ==
     LET r == Restore(attr, backup, order) IN
-    /\ attr' = r.attr /\ backup' = r.backup /\ overridden' = {}
+    /\ attr' = r.attr /\ backup' = r.backup /\ overridden' = {} /\ lastCleared' = via[1] /\ via' = [via EXCEPT ![1] = {}] /\ UNCHANGED overridden2
     /\ active' = <<>> /\ ignored' = <<>> /\ fmt' = "F1" /\ raised' = FALSE
     /\ objs' = [i \in 1..Len(objs) |-> [objs[i] EXCEPT !.list = "none"]]
     /\ UNCHANGED table
 
 Clear == /\ CanAct /\ (ClearEffects(OrderP) \/ ClearEffects(OrderC))
          /\ Step([op |-> "clear", cls |-> "-", mk |-> "-", out |-> "-", delay |-> FALSE, v |-> "-", attr |-> "-", i |-> 0, par |-> "-"])
+\* clearing the SECOND report: its registered classes are restored; the first report's lists and formatter are its own
+Order2 == LET s == <<"P", "C", "N", "I", "T">> IN SelectSeq(s, LAMBDA c : c \in overridden2)
+Clear2 == /\ SecondReport /\ CanAct
+          /\ LET r == Restore(attr, backup, Order2) IN attr' = r.attr /\ backup' = r.backup
+          /\ overridden2' = {} /\ lastCleared' = via[2] /\ via' = [via EXCEPT ![2] = {}] /\ raised' = FALSE
+          /\ UNCHANGED <<objs, active, ignored, fmt, table, overridden>>
+          /\ Step([op |-> "clear2", cls |-> "-", mk |-> "-", out |-> "-", delay |-> FALSE, v |-> "-", attr |-> "-", i |-> 0, par |-> "-"])
 Contextualize(clr) ==
     /\ CanAct
     /\ IF clr THEN (ClearEffects(OrderP) \/ ClearEffects(OrderC))
-       ELSE raised' = FALSE /\ UNCHANGED <<objs, active, ignored, attr, table, backup, overridden, fmt>>
+       ELSE raised' = FALSE /\ UNCHANGED <<objs, active, ignored, attr, table, backup, overridden, overridden2, lastCleared, via, fmt>>
     /\ Step([op |-> IF clr THEN "context_clear" ELSE "context_keep", cls |-> "-", mk |-> "-", out |-> "-",
              delay |-> FALSE, v |-> "-", attr |-> "-", i |-> 0, par |-> "-"])
 SetFormatter(f) ==
     /\ CanAct /\ f # fmt /\ fmt' = f /\ raised' = FALSE
-    /\ UNCHANGED <<objs, active, ignored, attr, table, backup, overridden>>
+    /\ UNCHANGED <<objs, active, ignored, attr, table, backup, overridden, overridden2, lastCleared, via>>
     /\ Step([op |-> "setfmt", cls |-> "-", mk |-> "-", out |-> "-", delay |-> FALSE, v |-> f, attr |-> "-", i |-> 0, par |-> "-"])
 
 Next == \/ \E c \in Cls, mk \in MsgKinds, out \in Outs, d \in BOOLEAN, par \in Parents : Create(c, mk, out, d, par)
         \/ \E i \in 1..MaxObjs : HandleDelayed(i)
         \/ \E c \in Cls, a \in Attrs : \E v \in Vals \cup {Pristine[c][a]} : Override(c, a, v)
-        \/ Clear \/ Contextualize(TRUE) \/ Contextualize(FALSE)
+        \/ \E c \in Cls, a \in Attrs : \E v \in Vals \cup {Pristine[c][a]} : Override2(c, a, v)
+        \/ Clear \/ Clear2 \/ Contextualize(TRUE) \/ Contextualize(FALSE)
         \/ \E f \in Fmts : SetFormatter(f)
 Spec == Init /\ [][Next]_vars
 
@@ -199,8 +219,11 @@ MessageDerivation == \A i \in 1..Len(objs) : objs[i].status = "active" =>
     LET m == objs[i].msg IN
     /\ (objs[i].mk = "explicit") => m.k = "explicit"
     /\ (objs[i].mk # "explicit") => m.k = "template" /\ m.f \in Fmts
-OverridesRestored == hist # <<>> /\ Last.op \in {"clear", "context_clear"} =>
-    attr = Pristine /\ overridden = {}
+\* after clearing a report, every class that was registered with THAT report is back to its pristine attributes (with
+\* one report: everything is) and the report's registry is empty
+OverridesRestored == hist # <<>> /\ Last.op \in {"clear", "context_clear", "clear2"} =>
+    /\ IF SecondReport THEN \A c \in lastCleared : attr[c] = Pristine[c] ELSE attr = Pristine
+    /\ IF Last.op = "clear2" THEN overridden2 = {} ELSE overridden = {}
 
 Complete == Len(hist) = Depth
 Export == Complete => PrintT(<<"VP", ToJson([hist |-> hist])>>)
